@@ -221,7 +221,7 @@ func groupShapes() [][]attrNode {
 	return out
 }
 
-func fmtCases(format string, thorough bool, emit func(rc recCase)) {
+func fmtCases(format string, keys []string, thorough bool, emit func(rc recCase)) {
 	base := recCase{Format: format, MsgQ: qk("m"), Level: int(slog.InfoLevel)}
 	variants := func(rc recCase) {
 		for _, caller := range []bool{false, true} {
@@ -254,7 +254,7 @@ func fmtCases(format string, thorough bool, emit func(rc recCase)) {
 		variants(rc)
 	}
 	// L2: one attribute: key x value
-	for _, k := range c04keys {
+	for _, k := range keys {
 		for i := range valSpecs {
 			rc := base
 			rc.Layer = "L2-one-attr"
@@ -311,7 +311,7 @@ func fmtCases(format string, thorough bool, emit func(rc recCase)) {
 }
 
 func init() {
-	register(&CheckDef{ID: "C04", Run: func(c *Ctx) { fmtRun(c, "C04", "json", c04eval) },
+	register(&CheckDef{ID: "C04", Run: func(c *Ctx) { fmtRun(c, "C04", "json", c04keys, c04eval) },
 		Replay: func(raw json.RawMessage) *Violation { return fmtReplay("C04", raw, c04eval) }})
 }
 
@@ -324,12 +324,12 @@ func fmtReplay(id string, raw json.RawMessage, eval func(recCase) *Violation) *V
 	return fmtEvalMin(id, rc, eval)
 }
 
-func fmtRun(c *Ctx, id, format string, eval func(recCase) *Violation) {
+func fmtRun(c *Ctx, id, format string, keys []string, eval func(recCase) *Violation) {
 	c.Flag("exhaustive", true)
 	resetGlobals()
 	n := 0
 	layers := map[string]int64{}
-	fmtCases(format, c.Thorough(), func(rc recCase) {
+	fmtCases(format, keys, c.Thorough(), func(rc recCase) {
 		n++
 		if !c.Mine(n) {
 			return
